@@ -15,6 +15,7 @@ RULE = (
     "needed number of steps: below it the run must report InfiniteLoopError (raised or collected) whose partial values "
     "equal the sequential state after exactly that many single-node steps, at/above it the run must complete "
     "identically. Non-trivial: >= 1 body execution or a cap below the needed steps; distinct = (template, parameters, cap)."
+    ' Also: a gate synchronised on TWO signals emitted by parallel body branches of different length (interval loop) and two exit gates that share one exit node, in both gate list orders.'
 )
 ASSUMPTIONS = [
     "the sequential reference shares only the user functions (hgmon.beh) with the program, no framework semantics",
